@@ -60,6 +60,7 @@ type Op struct {
 	Timeout int    `json:"to,omitempty"`  // µs; ctx ops
 	CtxBuf  int    `json:"cb,omitempty"`  // capacity of the context buffer (-1 none)
 	Stream  int    `json:"st,omitempty"`
+	Addr    int    `json:"addr,omitempty"` // Transport scenarios: target server
 	N       int    `json:"n,omitempty"`
 	Bad     string `json:"bad,omitempty"` // "method" unknown method, "args" undecodable args, "encode" unencodable request
 	Fault   *Fault `json:"fault,omitempty"`
@@ -146,6 +147,8 @@ type CallRec struct {
 	errObj   error
 	wireErr  string
 	NumCallsBefore, NumCallsAfter int
+	Addr  int  // Transport/Client scenarios: requested server
+	DownAtInvoke bool
 	Alone bool // no other call of any client was outstanding on the connection around this call
 }
 
@@ -217,12 +220,12 @@ type World struct {
 	shutdown bool
 	joinQ    simrt.WaitQ
 	active   int
-	listenRet []bool
-	listenErr []string
+	listenGen []*listenState
 	Notes    []string
 	SimEnd   time.Duration
 	LiveAtEnd []simrt.GInfo
 	TearingDown bool
+	TS       *tState
 	byID     map[uint64]*CallRec
 	opIdx    map[int]int
 	Arrivals map[int][]uint64 // client -> call ids in the order they arrived on its shared Done channel
@@ -329,13 +332,14 @@ func (w *World) startServer(i int) {
 		}
 	}
 	w.Servers[i] = s
-	w.listenRet[i] = false
 	opts := w.options(0)
+	gen := &listenState{}
+	w.listenGen[i] = gen
 	simrt.Go(fmt.Sprintf("harness.listen.%d", i), func() {
 		err := s.ListenWithOptions(addrOf(i), opts)
-		w.listenRet[i] = true
+		gen.returned = true
 		if err != nil {
-			w.listenErr[i] = err.Error()
+			gen.err = err.Error()
 		}
 	})
 	// wait until the listener exists
@@ -343,8 +347,8 @@ func (w *World) startServer(i int) {
 		if l := w.Net.listeners[addrOf(i)]; l != nil && !l.closed {
 			break
 		}
-		if w.listenRet[i] || n > 10000 {
-			w.Notes = append(w.Notes, fmt.Sprintf("server %d did not start: %s", i, w.listenErr[i]))
+		if gen.returned || n > 10000 {
+			w.Notes = append(w.Notes, fmt.Sprintf("server %d did not start: %s", i, gen.err))
 			break
 		}
 		simrt.Gosched()
@@ -570,3 +574,11 @@ func sortedKeys(m map[string]int) []string {
 func descCall(c *CallRec) string {
 	return fmt.Sprintf("call id=%d form=%s method=%s conn=%d client=%d size=%d rep=%d flags=%#x err=%q", c.ID, c.Form, c.Method, c.Conn, c.Client, c.Size, c.Rep, c.Flags, c.Err)
 }
+
+type listenState struct {
+	returned bool
+	err      string
+}
+
+// ListenReturned reports whether the Listen call of the current incarnation of server i has returned.
+func (w *World) ListenReturned(i int) bool { return w.listenGen[i] != nil && w.listenGen[i].returned }
